@@ -384,6 +384,8 @@ def _n4(ctx, rep):
             con = "%s.copy carries %s" % (c.name, p)
             if ok:
                 rep.holds("N4", m, con, why, node=sites[0])
+            elif ok is None:
+                rep.undecided("N4", m, con, why)
             else:
                 rep.violation("N4", m, con, "the copy's '%s' differs from the original: %s" % (p, why), node=sites[0])
         # the value itself is a deep copy
